@@ -91,6 +91,12 @@ def run_fixed(ctx):
     if not close(pn, wn, 1e-7, 1e-10):
         ctx.fail('fixed_vs_scipy', dict(sig, what='test_noise'), f'test_noise {np.asarray(pn).tolist()} != two-sided '
                  f'one-sample t-test against the lower ceiling {wn.tolist()}', wit(evaluations=ev, nc=nc_low))
+    # the pairwise table exists for every number of models (a 1 x 1 table holding 1 for a single model)
+    pp1 = np.asarray(res.test_pairwise())
+    if pp1.shape != (n_model, n_model) or not np.all(np.diag(pp1) == 1):
+        ctx.fail('fixed_vs_scipy', dict(sig, what='pairwise_shape'), f'test_pairwise for {n_model} model(s) has shape '
+                 f'{pp1.shape} / diagonal {np.diag(pp1).tolist() if pp1.ndim == 2 else None}', wit(evaluations=ev))
+        return
     if n_model > 1:
         pp = res.test_pairwise()
         wp = np.ones((n_model, n_model))
@@ -454,12 +460,33 @@ def run_extreme_bootstrap(ctx):
                      f'[0,1]: {p.tolist()} ({side}, N={N})', wit(p=p))
 
 
+def unrelated_library_activity(ctx):
+    """the process does other things between two analyses -- here comparisons of other RDMs with measures that share
+    helper functions with the inference code (contrast matrices, vector/matrix conversion).  None of it may leave a
+    trace in later results; it is never judged itself (C03 does that)"""
+    from rsatoolbox.rdm import compare
+    rng = ctx.rng
+    n = int(rng.integers(3, 8))
+    try:
+        a = RDMs(gen.rdm_vectors(rng, 2, n, 'eucl'))
+        b = RDMs(gen.rdm_vectors(rng, 1, n, 'eucl'))
+        with warnings.catch_warnings():
+            warnings.simplefilter('ignore')
+            for m in ('neg_riem_dist', 'bures', 'cosine_cov'):
+                compare(a, b, method=m)
+        ctx.count('unrelated_calls_interleaved')
+    except Exception as exc:   # noqa
+        ctx.notes.append(f'unrelated activity raised {exc!r}')
+
+
 def run(ctx):
     n = ctx.n(200, 4000)
     for it in range(n):
         if ctx.out_of_time():
             ctx.notes.append(f'time budget reached after {it} rounds')
             break
+        if it % 3 == 0:
+            unrelated_library_activity(ctx)
         run_extract(ctx)
         run_extract(ctx)
         run_tests(ctx)
